@@ -901,3 +901,222 @@ pub fn replay(v: &serde_json::Value) -> i32 {
         1
     }
 }
+
+// ------------------------------------------------------------------------------------
+// embedded links: the public `LinkBuilder` / `LinkTx` / `LinkRx` API of link/local.rs
+// ------------------------------------------------------------------------------------
+//
+// An application that embeds the broker talks to the router through `LinkTx::publish /
+// subscribe / unsubscribe` and `LinkRx::recv` (blocking) — code that neither the stepped
+// router of E1 (it owns the shared buffers itself) nor the connection tasks above (they use
+// `buffer()`, `notify()`, `exchange()`, `wake()`) execute. Here the router runs its real loop
+// on a second thread and this thread is the application.
+
+#[derive(Clone, Debug, Serialize, Deserialize)]
+pub struct Embedded {
+    /// messages published on the subscribed topic
+    pub n: usize,
+    /// 0 `publish` + `recv`, 1 `try_publish` + `recv_deadline`
+    pub api: u8,
+    /// a second subscriber on `t/+`
+    pub second: bool,
+    /// unsubscribe afterwards and publish again (nothing more may arrive)
+    pub unsub: bool,
+}
+
+pub fn embedded_cases(thorough: bool) -> Vec<Embedded> {
+    let mut v = vec![];
+    let ns: &[usize] = if thorough { &[1, 3, 199, 200, 250, 450, 1000] } else { &[3, 250, 450] };
+    for &n in ns {
+        for api in [0u8, 1] {
+            for second in [false, true] {
+                for unsub in [false, true] {
+                    if !thorough && second && unsub {
+                        continue;
+                    }
+                    v.push(Embedded { n, api, second, unsub });
+                }
+            }
+        }
+    }
+    v
+}
+
+/// Returns the violations (code, detail) of one embedded scenario.
+pub fn run_embedded(prop: &'static str, e: &Embedded) -> Vec<Violation> {
+    use rumqttd::local::LinkBuilder;
+    use rumqttd::Notification;
+    let cfg = RouterConfig {
+        max_connections: 10,
+        max_outgoing_packet_count: 200,
+        max_segment_size: 1 << 20,
+        max_segment_count: 10,
+        custom_segment: None,
+        initialized_filters: None,
+        shared_subscriptions_strategy: Default::default(),
+    };
+    let mut router = Router::new(0, cfg);
+    let tx = router.verif_link();
+    let stop = Arc::new(AtomicBool::new(false));
+    let stop2 = stop.clone();
+    let rt = std::thread::spawn(move || {
+        let mut panic = None;
+        while !stop2.load(Ordering::SeqCst) {
+            if panic.is_some() {
+                std::thread::sleep(Duration::from_micros(200));
+                continue;
+            }
+            match crate::vcore::catch(|| router.verif_turn()) {
+                Ok(true) => {}
+                Ok(false) => std::thread::sleep(Duration::from_micros(20)),
+                Err(p) => panic = Some(p),
+            }
+        }
+        panic
+    });
+    let ctx = format!("embedded links (n={}, api={}, second subscriber={}, unsubscribe={})", e.n, e.api, e.second, e.unsub);
+    let mut out: Vec<Violation> = vec![];
+    // generous: only a router that has stopped serving runs into it
+    let limit = Duration::from_secs(20);
+    let body = || -> Result<(), (String, String)> {
+        let build = |id: &str| LinkBuilder::new(id, tx.clone()).build().map_err(|e| ("connect_refused".to_string(), format!("link {id}: {e:?}")));
+        let (mut ptx, _prx, _) = build("pub")?;
+        let (mut stx, mut srx, _) = build("sub")?;
+        let mut second = if e.second { Some(build("sub2")?) } else { None };
+        // what a subscriber link reads until it has seen `want` forwards (or `until_ack` acks)
+        fn collect(rx: &mut rumqttd::local::LinkRx, api: u8, want: usize, acks: usize, limit: Duration) -> Result<(Vec<(String, Vec<u8>)>, usize), (String, String)> {
+            let mut got = vec![];
+            let mut seen_acks = 0;
+            let t0 = std::time::Instant::now();
+            while got.len() < want || seen_acks < acks {
+                if t0.elapsed() > limit {
+                    return Err(("undelivered".into(), format!("{} of {want} forwards and {seen_acks} of {acks} replies arrived, then nothing for the rest of {limit:?}; last {:?}", got.len(), got.last())));
+                }
+                let n = if api == 0 {
+                    // `recv` blocks: a deadline variant with the same body is used as the watchdog
+                    rx.recv_deadline(std::time::Instant::now() + Duration::from_millis(200))
+                } else {
+                    rx.recv_deadline(std::time::Instant::now() + Duration::from_millis(50))
+                };
+                match n {
+                    Ok(Some(Notification::Forward(f))) => got.push((String::from_utf8_lossy(&f.publish.topic).to_string(), f.publish.payload.to_vec())),
+                    Ok(Some(Notification::DeviceAck(_))) => seen_acks += 1,
+                    Ok(Some(Notification::Unschedule)) => rx.ready().map_err(|e| ("unexpected_close".to_string(), format!("ready(): {e:?}")))?,
+                    Ok(Some(other)) => return Err(("unexpected_reply".into(), format!("{other:?}"))),
+                    Ok(None) => {}
+                    Err(rumqttd::local::LinkError::RecvTimeout(_)) => {}
+                    Err(err) => return Err(("unexpected_close".into(), format!("recv: {err:?}"))),
+                }
+            }
+            Ok((got, seen_acks))
+        }
+        stx.subscribe("t/a").map_err(|e| ("unexpected_close".to_string(), format!("{e:?}")))?;
+        collect(&mut srx, e.api, 0, 1, limit)?;
+        if let Some((tx2, rx2, _)) = second.as_mut() {
+            tx2.subscribe("t/+").map_err(|e| ("unexpected_close".to_string(), format!("{e:?}")))?;
+            collect(rx2, e.api, 0, 1, limit)?;
+        }
+        let mut expect = vec![];
+        for k in 0..e.n {
+            let payload = format!("m{k}").into_bytes();
+            let r = if e.api == 0 { ptx.publish("t/a", payload.clone()) } else { ptx.try_publish("t/a", payload.clone()) };
+            match r {
+                Ok(_) => expect.push(("t/a".to_string(), payload)),
+                // try_publish may find the event channel full: the message is in the buffer
+                // all the same and the next event carries it along
+                Err(rumqttd::local::LinkError::TrySend(_)) => expect.push(("t/a".to_string(), payload)),
+                Err(err) => return Err(("unexpected_close".into(), format!("publish: {err:?}"))),
+            }
+        }
+        // one blocking publish behind a series of try_publish makes sure an event follows the
+        // last buffered packet
+        ptx.publish("t/z", b"end".to_vec()).map_err(|e| ("unexpected_close".to_string(), format!("{e:?}")))?;
+        let (got, _) = collect(&mut srx, e.api, expect.len(), 0, limit)?;
+        if got != expect {
+            let k = got.iter().zip(expect.iter()).position(|(a, b)| a != b).unwrap_or(got.len().min(expect.len()));
+            return Err(("unexpected_forward".into(), format!("subscriber of t/a: forward {k} is {:?}, published was {:?}", got.get(k).map(|g| String::from_utf8_lossy(&g.1).to_string()), expect.get(k).map(|g| String::from_utf8_lossy(&g.1).to_string()))));
+        }
+        if let Some((_, rx2, _)) = second.as_mut() {
+            let mut expect2 = expect.clone();
+            expect2.push(("t/z".to_string(), b"end".to_vec()));
+            let (got2, _) = collect(rx2, e.api, expect2.len(), 0, limit)?;
+            if got2 != expect2 {
+                return Err(("unexpected_forward".into(), format!("subscriber of t/+: got {} forwards, they differ from the {} published", got2.len(), expect2.len())));
+            }
+        }
+        if e.unsub {
+            stx.unsubscribe("t/a").map_err(|e| ("unexpected_close".to_string(), format!("{e:?}")))?;
+            collect(&mut srx, e.api, 0, 1, limit)?;
+            ptx.publish("t/a", b"after".to_vec()).map_err(|e| ("unexpected_close".to_string(), format!("{e:?}")))?;
+            // a marker through a fresh subscription: what arrives before it was sent before it
+            stx.subscribe("t/m").map_err(|e| ("unexpected_close".to_string(), format!("{e:?}")))?;
+            collect(&mut srx, e.api, 0, 1, limit)?;
+            ptx.publish("t/m", b"marker".to_vec()).map_err(|e| ("unexpected_close".to_string(), format!("{e:?}")))?;
+            let (got, _) = collect(&mut srx, e.api, 1, 0, limit)?;
+            if got[0].0 != "t/m" {
+                return Err(("unexpected_forward".into(), format!("after the UNSUBACK for t/a the subscriber still got {:?}", got[0].0)));
+            }
+        }
+        Ok(())
+    };
+    let r = crate::vcore::catch(body);
+    stop.store(true, Ordering::SeqCst);
+    let router_panic = rt.join().unwrap_or(Some("router thread died".into()));
+    if let Some(p) = router_panic {
+        out.push(Violation::new(prop, "router_panic", format!("{ctx}: {p}")));
+        return out;
+    }
+    match r {
+        Ok(Ok(())) => {}
+        Ok(Err((code, d))) => out.push(Violation::new(prop, code, format!("{ctx}: {d}"))),
+        Err(p) => out.push(Violation::new(prop, "link_api_panic", format!("{ctx}: {p}"))),
+    }
+    out
+}
+
+pub fn run_embedded_part(prop: &'static str, tier: crate::vcore::Tier, reporter: &crate::vcore::findings::Reporter, ev: &mut crate::vcore::evidence::Evidence) {
+    use rayon::prelude::*;
+    use serde_json::json;
+    let cases = embedded_cases(tier == crate::vcore::Tier::Thorough);
+    let bad: usize = cases
+        .par_iter()
+        .map(|c| {
+            let viols = run_embedded(prop, c);
+            if !viols.is_empty() {
+                let again = run_embedded(prop, c);
+                if again.iter().map(|v| &v.code).collect::<Vec<_>>() != viols.iter().map(|v| &v.code).collect::<Vec<_>>() {
+                    crate::vcore::machinery_error("E7 embedded scenario is not deterministic");
+                }
+            }
+            for v in viols.iter() {
+                reporter.report(v, || json!({"engine": "e7_embedded", "prop": prop, "case": c}));
+            }
+            viols.len()
+        })
+        .sum();
+    let _ = bad;
+    ev.states += cases.len() as u64;
+    ev.transitions += cases.iter().map(|c| c.n as u64 + 6).sum::<u64>();
+    ev.traces_validated += cases.len() as u64;
+    ev.set("embedded_link_scenarios", json!({"scenarios": cases.len(), "messages": cases.iter().map(|c| c.n).sum::<usize>(), "api": "LinkBuilder::build, LinkTx::{publish, try_publish, subscribe, unsubscribe}, LinkRx::{recv_deadline, ready}"}));
+}
+
+pub fn replay_embedded(v: &serde_json::Value) -> i32 {
+    let c: Embedded = serde_json::from_value(v["case"].clone()).unwrap();
+    let prop: &'static str = Box::leak(v["prop"].as_str().unwrap_or("C01").to_string().into_boxed_str());
+    let a = run_embedded(prop, &c);
+    let b = run_embedded(prop, &c);
+    if a.iter().map(|v| &v.code).collect::<Vec<_>>() != b.iter().map(|v| &v.code).collect::<Vec<_>>() {
+        crate::vcore::machinery_error("E7 embedded replay is not deterministic");
+    }
+    for v in a.iter() {
+        println!("  !! {} {}: {}", v.property, v.code, v.detail);
+    }
+    if a.is_empty() {
+        println!("replay: no violation");
+        0
+    } else {
+        println!("replay: {} violation(s) reproduced", a.len());
+        1
+    }
+}
